@@ -82,7 +82,9 @@ IDENT_ARGS = {'label', 'rel', 'rel1', 'rel2', 'node_label', 'node1_label', 'node
 BASE_ADV = ["'", '"', '\\', '{', '}', '$x', '\n', '//', "') DETACH DELETE n //", '") DETACH DELETE n //',
             'MATCH (n) DETACH DELETE n', 'RETURN', 'ünïcödé-名前-Ω-😀', 'tail\\', "it's", 'say "hi"', '{{x}}', '{name}',
             '$graphId', "a'b\"c\\d{e}$f", 'C:\\temp\\new', "\\'", '/* c */ -- ;', '`tick`', "'}) RETURN 1 //",
-            '{"core": 4, "note": "5\\" rack, o\'clock"}', "x' OR '1'='1", '\\u0027']
+            '{"core": 4, "note": "5\\" rack, o\'clock"}', "x' OR '1'='1", '\\u0027',
+            # values that are false in Python although they are values: the empty string, a blank, '0'
+            '', ' ', '0']
 FRAGS = ["'", '"', '\\', '{', '}', '{{', '}}', '$x', '$graphId', '\n', '\t', '//', '/*', '*/', '`', ';', ':', ',', ')',
          '(', ']', '[', ' DETACH DELETE n ', ' RETURN ', ' MATCH (n) ', ' OR 1=1 ', 'ü', '名', '😀', '\\n', '\\u0041',
          "\\'", '\\"', 'abc', 'x1', ' ', '%s', '{0}', '{name}', '#', '@', '?', '|', '--', "''", '""', '\\\\']
